@@ -122,6 +122,8 @@ def make_field(rng, n, n_pol, noise_kind, real=False):
     shape = (2, n) if n_pol == 2 else (n,)
     amp = 10 ** rng.uniform(-4, 0)
     s = rng.normal(0, 1, shape) * amp
+    if real and rng.integers(3) == 0:
+        s = rng.integers(-5, 6, shape)            # integer-valued (int dtype) field
     if not real:
         s = s + 1j * rng.normal(0, 1, shape) * amp
     nz = None
@@ -174,7 +176,7 @@ def w_mzm(ctx, rng, i):
     Vpi = float(rng.uniform(0.5, 10))
     bias = float(rng.uniform(-2 * Vpi, 2 * Vpi))
     loss = float(rng.uniform(0, 20)) if rng.integers(4) else 0.0
-    ER = float(rng.uniform(0, 60))
+    ER = float(rng.uniform(0, 60)) if i % 9 else float([0.0, 60.0, 26.0][i // 9 % 3])
     pol = "xy"[int(rng.integers(2))]
     dkind, u = make_drive(rng, n, Vpi)
     ctx.describe(n=n, n_pol=n_pol, noise=noise_kind, Vpi=Vpi, bias=bias, loss_dB=loss, ER_dB=ER, pol=pol, drive=dkind)
